@@ -181,6 +181,7 @@ def stepLine (st : St) (line : String) : St × List String :=
     | _ => ({ st with dead := true }, ["panic"])
   | ["crash"] => ({ st with db := { st.db with store := reopen st.db.store } }, ["ok"])
   | ["recover"] =>
+    let st := { st with preFlush := (recoverPre st.db).getD st.preFlush }
     match recover st.db [] [] with
     | .ok db => ({ st with db := { db with store := reopen db.store } }, ["ok"])
     | .err _ db => ({ st with db := { db with store := reopen db.store } }, ["initerr"])
